@@ -368,6 +368,22 @@ impl OsOpaqueIpcChannel {
             OsIpcChannel::Receiver(_) => panic!("Opaque channel is not a sender!"),
         }
     }
+
+    /// Like `to_receiver`, but `None` (and the attachment is released) if it is not a receiver.
+    pub fn try_to_receiver(&self) -> Option<OsIpcReceiver> {
+        match self.channel.borrow_mut().take() {
+            Some(OsIpcChannel::Receiver(r)) => Some(r),
+            _ => None,
+        }
+    }
+
+    /// Like `to_sender`, but `None` (and the attachment is released) if it is not a sender.
+    pub fn try_to_sender(&mut self) -> Option<OsIpcSender> {
+        match self.channel.borrow_mut().take() {
+            Some(OsIpcChannel::Sender(s)) => Some(s),
+            _ => None,
+        }
+    }
 }
 
 pub struct OsIpcSharedMemory {
